@@ -184,4 +184,35 @@ theorem C09_export_decodable_full_false : ¬ C09_export_decodable_full := by
   have := h [[77, 61, 97, 10, 98]]
   revert this; decide
 
+/-! ### how a datetime-filter bound reaches the reader (`datetimel_to_realtime_timestamp`) -/
+
+/-- the unsigned microsecond value the reader compares entry times with, for a bound `x` (microseconds since the
+epoch, possibly negative: a date before 1970). `clamp = true`: `.max(0) as u64`; `false`: a bare `as u64`, which
+wraps a negative value to `x + 2^64` -/
+def boundOf (clamp : Bool) (x : Int) : Int :=
+  if x < 0 then (if clamp then 0 else x + 18446744073709551616) else x
+
+/-- **C09_bound_after.** A `--dt-after` bound selects the same entries as the instant it denotes, also when it lies
+before 1970 (every entry time is `≥ 0`). Unfolds the regenerated `boundClampsPreEpoch` (the cast that wrapped was
+repaired by this work; a regression regenerates `false` and this proof breaks). -/
+theorem C09_bound_after (x t : Int) (ht : 0 ≤ t) : boundOf boundClampsPreEpoch x ≤ t ↔ x ≤ t := by
+  have h : boundClampsPreEpoch = true := by decide
+  unfold boundOf; rw [h]
+  by_cases hx : x < 0 <;> simp [hx] <;> omega
+
+/-- **C09_bound_before.** Likewise for `--dt-before`, for every entry time after the epoch itself -/
+theorem C09_bound_before (x t : Int) (ht : 0 < t) : t ≤ boundOf boundClampsPreEpoch x ↔ t ≤ x := by
+  have h : boundClampsPreEpoch = true := by decide
+  unfold boundOf; rw [h]
+  by_cases hx : x < 0 <;> simp [hx] <;> omega
+
+/-- counter-model (the defect repaired by this work): with the wrapping cast a `--dt-after` bound before 1970
+excludes every entry, and a `--dt-before` bound before 1970 includes every entry -/
+theorem wrapped_bound_selects_wrongly :
+    ¬ (boundOf false (-1) ≤ 1700000000000000 ↔ (-1 : Int) ≤ 1700000000000000) ∧
+    ¬ ((1700000000000000 : Int) ≤ boundOf false (-1) ↔ (1700000000000000 : Int) ≤ -1) := by
+  decide
+
+example : boundOf boundClampsPreEpoch (-315619200000000) = 0 := by decide
+
 end S4V.Props.C09
